@@ -119,10 +119,17 @@ def check(ctx):
         guard = parents.get(n)
         ctx.require(isinstance(guard, ast.If) and n in guard.body, "the propagation site is not directly under an `if`")
         atoms = {"dynamic": "dynamic", "conversion is None": "no_conv", "conversion is not None": "!no_conv", "is_subclass(tp, Collection)": "coll", "is_subclass(tp, str)": "isstr"}
-        be = BoolEval(atoms)
+        def special12(e, _):
+            # `<origin of tp> in <module-level table of container classes>`: true for the listed builtin / typing
+            # containers only - a finite subset of the Collection classes (never str)
+            if isinstance(e, ast.Compare) and len(e.ops) == 1 and isinstance(e.ops[0], (ast.In, ast.NotIn)) and isinstance(e.comparators[0], ast.Name) and e.comparators[0].id.isupper() and "tp" in norm(e.left):
+                neg = isinstance(e.ops[0], ast.NotIn)
+                return lambda v: (not v["plain"]) if neg else v["plain"]
+            return None
+        be = BoolEval(atoms, special=special12)
         try:
             bad = None
-            for v in valuations(["dynamic", "no_conv", "coll", "isstr"]):
+            for v in valuations(["dynamic", "no_conv", "coll", "isstr", "plain"], lambda v: (not v["plain"]) or (v["coll"] and not v["isstr"])):
                 want = (not v["dynamic"]) and v["coll"] and not v["isstr"]
                 got = bool(be.ev(guard.test, v))
                 if got != want and bad is None:
@@ -130,7 +137,7 @@ def check(ctx):
             ctx.check(bad is None, "C12.R3", f"{fi.qualname}:guard", guard.test,
                       (f"guard `{short(guard.test, 90)}` is {bad[1]} for [{show(bad[0])}] where the locality rule says {bad[2]}: a dynamic conversion {'leaks into' if bad[1] else 'no longer reaches'} "
                        f"the elements of a collection (documented: dynamic conversions reach through containers, are consumed where they apply, and `identity` only bypasses the type it is applied to)") if bad else "",
-                      fi, guard, detail="16 valuations: guard == (not dynamic and collection and not str)")
+                      fi, guard, detail="guard == (not dynamic and collection and not str), over dynamic / conversion / Collection / str / listed-in-a-table-of-plain-containers")
         except Unknown as err:
             raise AnalysisError(f"C12.R3 guard: {err}")
         # the previous definition is None
@@ -215,6 +222,8 @@ def mutants(mb):
     mb.add_text("converter-types-no-extras", "apischema/conversions/utils.py", "        types = get_type_hints(converter, None, namespace, include_extras=True)", "        types = get_type_hints(converter, None, namespace)", "C12.R8", "converter_types")
     mb.add_text("guard-conversion-none", CVp, "        if not dynamic and is_subclass(tp, Collection) and not is_subclass(tp, str):", "        if (\n            conversion is None\n            and is_subclass(tp, Collection)\n            and not is_subclass(tp, str)\n        ):", "C12.R3", "guard")
     mb.add_text("guard-no-str", CVp, "        if not dynamic and is_subclass(tp, Collection) and not is_subclass(tp, str):", "        if not dynamic and is_subclass(tp, Collection):", "C12.R3", "guard")
+    mb.add_text("guard-plain-containers-only", CVp, "        if not dynamic and is_subclass(tp, Collection) and not is_subclass(tp, str):", "        if not dynamic and get_origin_or_type(tp) in ITERABLE_TYPES:", "C12.R3", "guard")
+    mb.out[-1].new_src = mb.out[-1].new_src.replace("from apischema.utils import (\n", "from apischema.utils import (\n    ITERABLE_TYPES,\n", 1)
     mb.add_text("guard-always", CVp, "        if not dynamic and is_subclass(tp, Collection) and not is_subclass(tp, str):", "        if not dynamic:", "C12.R3", "guard")
     mb.add_text("deser-field-serialization", D, "            self.visit_with_conv(f.type, f.deserialization).merge(", "            self.visit_with_conv(f.type, f.serialization).merge(", "C12.R1", "object")
     mb.add_text("ser-field-deserialization", S, "            field_method = self.visit_with_conv(field.type, field.serialization)", "            field_method = self.visit_with_conv(field.type, field.deserialization)", "C12.R1", "object")
